@@ -1097,9 +1097,10 @@ END:VTODO\n";
 	}
 
 	with (echs_idiff_t d = t->dur) {
-		const int s = d.d / 1000U + !!(d.d % 1000U);
+		/* (68 years' worth of seconds don't fit an int) */
+		const long long int s = d.d / 1000 + !!(d.d % 1000);
 
-		rc -= fdprintf("DURATION:PT%dS\n", s) < 0;
+		rc -= fdprintf("DURATION:PT%lldS\n", s) < 0;
 	}
 	with (unsigned int um = 0066U) {
 		if (t->t->umsk < 0777U) {
